@@ -53,7 +53,13 @@ Definition ds_hvector (ex n bl stride : Z) : list Z := flat_map (fun i => blockd
 Definition ds_hindexed (ex : Z) (blocks : list (Z * Z)) : list Z :=
   flat_map (fun b => blockds (snd b) ex (fst b)) blocks.
 
-Definition sem_join (a b : sem) : sem := mkSem (tm a ++ tm b) (Z.min (slb a) (slb b)) (Z.max (sub a) (sub b)).
+(** struct: member i is a block of bl_i copies of its own type at displacement disp_i; type map = concatenation,
+    lb/ub = min/max over the members *)
+Definition field_sem (f : Z * Z * sem) : sem :=
+  match f with (bl, disp, s) => replicate (blockds disp (sext s) bl) s end.
+Definition sem_struct (l : list (Z * Z * sem)) : sem :=
+  mkSem (flat_map (fun f => tm (field_sem f)) l)
+        (min_list (map (fun f => slb (field_sem f)) l)) (max_list (map (fun f => sub (field_sem f)) l)).
 
 (** one dimension of a subarray (MPI-3.1 §4.1.3): subsize copies from index start in an array of size elements;
     lb = 0, ub = size * extent *)
@@ -72,19 +78,16 @@ Fixpoint sem_of (t : dt) : sem :=
   | Hindexed blocks t => let s := sem_of t in replicate (ds_hindexed (sext s) blocks) s
   | IndexedBlock bl idxs t =>
       let s := sem_of t in replicate (ds_hindexed (sext s) (map (fun i => (bl, i * sext s)) idxs)) s
-  | Struct fields => match sem_flds fields with Some s => s | None => mkSem [] 0 0 end
+  | Struct fields => sem_struct (sem_flds fields)
   | Resized lb ext t => let s := sem_of t in mkSem (tm s) lb (lb + ext)
   | Subarray c_order dims t =>
       (* Subarray(n dims) = Subarray(n-1 outer dims, of Subarray(1, fastest dim, old)) *)
       fold_left (fun s d => sub1 d s) (if c_order then rev dims else dims) (sem_of t)
   end
-with sem_flds (f : flds) : option sem :=
+with sem_flds (f : flds) : list (Z * Z * sem) :=
   match f with
-  | FNil => None
-  | FCons bl disp t r =>
-      let s := sem_of t in
-      let me := replicate (blockds disp (sext s) bl) s in
-      match sem_flds r with None => Some me | Some rest => Some (sem_join me rest) end
+  | FNil => []
+  | FCons bl disp t r => (bl, disp, sem_of t) :: sem_flds r
   end.
 
 (** bytes of [count] elements laid out from address [base]: element j sits at base + j*extent *)
